@@ -51,7 +51,7 @@ STUBS = ['(c) the maildir layout and Maildir objects are stubs raising the docum
 OUTSIDE = ['maildir directories themselves', 'modified UTF-7 spelling of names (C18)']
 
 _g: dict = {}
-VOCAB = ['a', 'a/b', 'A', 'a\nb', 'x*', 'a/b/c', 'b', 'iNbOx', 'a/a']
+VOCAB = ['a', 'a/b', 'A', 'a\nb', 'x*', 'a/b/c', 'b', 'iNbOx', 'a/a', 'INBOX/a']
 
 
 def setup() -> None:
